@@ -103,7 +103,7 @@ func keySets(tier string, rng *Rng, forFs bool) [][]string {
 		// the top of the code-point range: 4-byte sequences sort after every 3-byte one (keys stay within the characters XML 1.0 can carry)
 		{"docs/\U0001F600.txt", "docs/a", "docs/\uffee", "\U0001F600", "docs/\U0010FFFD", "docs/\u07ff"},
 		// names a directory walk may treat specially: leading dots (not "." and ".." themselves), blanks, a tilde, a trailing dot
-		{"docs/.config", "docs/.cache/x", "docs/a", ".top", ".d/x", "docs/..rc", "docs/ sp", "docs/~bak", "docs/end."},
+		{"docs/.config", "docs/.cache/x", "docs/a", ".top", ".d/x", "docs/..rc", "docs/ sp", "docs/~bak", "docs/end.", "..dd/x", "...e/y/z"},
 	}
 	for _, r := range rich {
 		var clean []string
@@ -178,6 +178,16 @@ func runC03(tier string, seed uint64) {
 			for _, k := range keys {
 				s.Put(b, k, []byte("body-of-" + k)[:5+len(k)], nil)
 			}
+			if !ghost && len(keys) > 0 {
+				// keys that were stored and deleted again leave nothing behind, whatever they are called
+				// (on the memory backend the same is done with delete markers, below)
+				for _, g := range []string{"zz-ghost/dir/leaf", "..gh/x", "zz-ghost/.h"} {
+					s.Put(b, g, []byte("ghost"), nil)
+				}
+				for _, g := range []string{"zz-ghost/dir/leaf", "..gh/x", "zz-ghost/.h"} {
+					s.Delete(b, g)
+				}
+			}
 			if ghost && len(keys) > 0 {
 				// a delete-marked key that must never be listed
 				// (also ones that lie behind a delimiter: they must not surface as a common prefix)
@@ -229,6 +239,14 @@ func runC03(tier string, seed uint64) {
 					}
 				}
 				s.vids = nil
+			}
+			// neither do uploads the backend refused half way (a path segment no file system can name, below
+			// segments it can): they never were keys
+			if (kind == "fsdir" || kind == "sfsdir") && si%10 == 0 {
+				long := strings.Repeat("n", 300)
+				for _, rk := range []string{"r1/" + long + "/x", "r1/r2/" + long, "r3/r4/" + long + "/y/z"} {
+					do(s.h, Req{Method: "PUT", Path: "/" + b + "/" + rk, Body: []byte("refused")})
+				}
 			}
 			// after deletion nothing may be left over
 			s.List(ListReq{Bucket: b, Delim: "/", MaxKeys: -1})
@@ -303,9 +321,38 @@ func c04LeadingDelimiter() {
 	s.end()
 }
 
+// c04EncodedKeys: keys whose bytes a URL decoder would change ('+', '%41', '%2F', '%25') are keys like
+// any other: every continuation the server hands back resumes exactly after them, whether or not
+// the client asks for encoding-type=url (which this server answers unencoded)
+func c04EncodedKeys() {
+	s := newSess("c04", "mem", SessOpts{})
+	b := singleBucketName
+	s.MkBucket(b)
+	keys := []string{"a b", "a+b", "a%2Bb", "a%41", "aA", "p q/y", "p+q/x", "p%2Fq", "z%25", "z%zz", "%", "+"}
+	for _, k := range keys {
+		s.Put(b, k, []byte(k), nil)
+	}
+	for _, extra := range []string{"", "encoding-type=url"} {
+		s.listExtra = extra
+		for _, pd := range [][2]string{{"", ""}, {"", "/"}, {"a", ""}, {"p", "/"}} {
+			for mk := 1; mk <= len(keys)+1; mk++ {
+				for _, v2 := range []bool{false, true} {
+					s.walk(b, pd[0], pd[1], mk, v2, len(keys)+1)
+					nontrivial(fmt.Sprint("encoded-keys", extra, pd, mk, v2))
+				}
+			}
+			s.walkFrom(b, pd[0], pd[1], 2, true, len(keys)+1, "a+b")
+			s.walkFrom(b, pd[0], pd[1], 1, true, len(keys)+1, "a%41")
+		}
+	}
+	s.listExtra = ""
+	s.end()
+}
+
 func runC04(tier string, seed uint64) {
 	rng := NewRng(seed)
 	c04LeadingDelimiter()
+	c04EncodedKeys()
 	// (1) paginating backend
 	{
 		sets := keySets(tier, NewRng(seed+7), false)
